@@ -1,18 +1,25 @@
-(** Correspondence record for C16: one case = config tree, prefix, environment,
-    and what the implementation did. *)
+(** Correspondence record for C16: one case = the config levels, prefix,
+    environment, and what the implementation did (the env level it computed and
+    the deep view afterwards). *)
 From InvokeVerif Require Export Model.EnvModel Spec.C16Spec.
 
 Record case := mk { c_tree : tree;            (* defaults level *)
-                    c_more : list tree;      (* further levels in precedence order (collection, overrides) *)
+                    c_more : list tree;      (* [collection] or [collection; overrides] *)
+                    c_mods : tree;           (* runtime modifications (a nested dict of written leaves) *)
+                    c_dels : tree;           (* runtime deletions (a nested dict with None leaves) *)
                     c_pfx : string; c_env : list (string * string);
-                    c_obs : result tree }.
+                    c_obs : result tree;     (* the env level computed by load_shell_env, or the error *)
+                    c_view : option tree }.  (* deep view of the config afterwards (when it did not fail) *)
 
-(** the configuration the environment is read against: the merge of the levels
-    (whether or not they were loaded with deferred merging) *)
-Definition merged (c : case) : result tree :=
-  match fold_left (fun acc lvl => bind acc (fun d => merge_dicts d lvl))
-                  (c_tree c :: c_more c) (Ok []) with
-  | Ok d => Ok (Node d)
+Definition merge_levels (ls : list tree) : result dict :=
+  fold_left (fun acc lvl => bind acc (fun d => merge_dicts d lvl)) ls (Ok []).
+
+(** the configuration the environment is read against: the merge of the other
+    levels (however they were loaded: eagerly, with deferred merging, after
+    earlier loads of other collection levels / environments), deletions applied *)
+Definition pre (c : case) : result tree :=
+  match merge_levels (c_tree c :: c_more c ++ [c_mods c]) with
+  | Ok d => Ok (Node (obliterate d (c_dels c)))
   | Err e => Err e
   end.
 
@@ -23,18 +30,41 @@ Definition res_equiv (a b : result tree) : bool :=
   | _, _ => false
   end.
 
-Definition model_out (c : case) : result tree :=
-  match merged c with
+Definition model_env (c : case) : result tree :=
+  match pre c with
   | Err e => Err e
   | Ok t => match load t (effective_prefix (c_pfx c)) (c_env c) with Ok d => Ok (Node d) | Err e => Err e end
   end.
 
-Definition corr (c : case) : bool := res_equiv (model_out c) (c_obs c).
+(** Config.merge order: defaults, collection, (files), env, (runtime), overrides, modifications; deletions last *)
+Definition model_view (c : case) : option tree :=
+  match model_env c with
+  | Ok e =>
+      match merge_levels (c_tree c :: firstn 1 (c_more c) ++ [e] ++ skipn 1 (c_more c) ++ [c_mods c]) with
+      | Ok d => Some (Node (obliterate d (c_dels c)))
+      | Err _ => None
+      end
+  | Err _ => None
+  end.
+
+Definition corr (c : case) : bool :=
+  res_equiv (model_env c) (c_obs c) &&
+  match c_view c, model_view c with
+  | Some v, Some m => dict_equiv v m && dict_equiv m v
+  | None, _ => true
+  | Some _, None => false
+  end.
+
+Definition obs_dict (c : case) : result dict :=
+  match c_obs c with Ok (Node d) => Ok d | Ok (Leaf _) => Err EOther | Err e => Err e end.
 
 Definition spec (c : case) : bool :=
-  match merged c with
+  match pre c with
   | Err _ => true   (* type-inconsistent levels: outside C16 (C03's guard) *)
   | Ok t =>
-  spec_ok t (effective_prefix (c_pfx c)) (c_env c)
-          (match c_obs c with Ok (Node d) => Ok d | Ok (Leaf _) => Err EOther | Err e => Err e end)
+      spec_ok t (effective_prefix (c_pfx c)) (c_env c) (obs_dict c) &&
+      match c_view c, obs_dict c with
+      | Some v, Ok d => spec_view t (skipn 1 (c_more c) ++ [c_mods c]) d v
+      | _, _ => true
+      end
   end.
